@@ -15,7 +15,7 @@ import (
 // document first — normalising the addon list, say — makes edits to that
 // member vanish before the comparison, so the change is not evident. Every
 // Validate / ValidateWithContext method of the envelope and of the document
-// types writes, itself or through any callee, no member of a document type.
+// types, and every Validator of a regime or addon definition, writes, itself or through any callee, no member of a document type.
 func c08ValidateReadOnly(c *core.Ctx) {
 	p := c.P
 	c.Rule("C08-R9", "validation writes no member of the envelope or of a document type", 40)
@@ -59,6 +59,15 @@ func c08ValidateReadOnly(c *core.Ctx) {
 		}
 		fds = append(fds, fd)
 	}
+	// the validators of the regime and addon definitions run as part of the same validation
+	nDef := 0
+	for f := range definitionValidators(p) {
+		if fd := p.DeclOf(f); fd != nil {
+			fds = append(fds, fd)
+			nDef++
+		}
+	}
+	c.Extra("C08-R9_definition_validators", nDef)
 	sort.Slice(fds, func(i, j int) bool { return fds[i].Name() < fds[j].Name() })
 	for _, fd := range fds {
 		var written []string
